@@ -172,6 +172,108 @@ fn run_case(c: &Case, refs: &HashMap<(usize, Vec<&'static str>), String>) -> (u6
     }
 }
 
+/// a file excluded by the top-level filters is not read as Lua at all: whatever it contains, the run has no error and the other
+/// files are written exactly as without it; patterns written with a leading `./` select what they select without it
+fn excluded_file_cases() -> (u64, Vec<Violation>) {
+    let mut n = 0;
+    let mut violations = Vec::new();
+    let healthy: &[(&str, &str)] = &[("src/a.lua", "-- c1\nlocal value1 = 1\ndo end\nreturn value1\n"), ("src/lib/b.lua", "-- c2\ndo end\nreturn 2\n")];
+    let broken_contents: &[(&str, &str)] = &[
+        ("syntax of another dialect", "local x <close> = f()\ngoto done\n::done::\nreturn x // 2 | 1\n"),
+        ("not Lua at all", "{{ template }}\n"),
+        ("a require that cannot be found", "return require('./missing')\n"),
+    ];
+    for (what, broken) in broken_contents {
+        for (filters, bundle) in [
+            ("skip_files: ['**/vendor/**']", false),
+            ("skip_files: 'src/vendor/old.lua'", false),
+            ("apply_to_files: ['src/*.lua', 'src/lib/**']", false),
+            ("skip_files: ['**/vendor/**']", true),
+        ] {
+            for (fail_fast, in_place) in [(false, false), (true, false), (false, true)] {
+                n += 1;
+                let config = format!("{{rules: ['remove_comments', 'remove_empty_do'], {}{}}}", filters, if bundle { ", bundle: {require_mode: 'path'}" } else { "" });
+                let mut files: Vec<(&str, &str)> = healthy.to_vec();
+                files.push(("src/vendor/old.lua", broken));
+                let run = |files: &[(&str, &str)]| -> Result<(std::collections::BTreeMap<String, String>, Vec<String>), String> {
+                    let resources = darklua_core::Resources::from_memory();
+                    for (p, c) in files {
+                        let _ = resources.write(p, c);
+                    }
+                    let _ = resources.write(".darklua.json", &config);
+                    let mut options = darklua_core::Options::new("src").with_configuration_at(".darklua.json");
+                    if !in_place {
+                        options = options.with_output("out");
+                    }
+                    if fail_fast {
+                        options = options.fail_fast();
+                    }
+                    let res = resources.clone();
+                    let outcome = crate::common::guarded(move || darklua_core::process(&res, options)).map_err(|p| format!("PANIC: {}", p))?;
+                    let errors = match outcome {
+                        Ok(tree) => tree.collect_errors().iter().map(|e| e.to_string()).collect(),
+                        Err(e) => vec![format!("FATAL {}", e)],
+                    };
+                    let mut got = std::collections::BTreeMap::new();
+                    for path in resources.walk("") {
+                        got.insert(path.to_string_lossy().replace('\\', "/"), resources.get(&path).unwrap_or_default());
+                    }
+                    Ok((got, errors))
+                };
+                let with = run(&files);
+                let without = run(healthy);
+                let problem = match (with, without) {
+                    (Ok((got, errors)), Ok((mut want, _))) => {
+                        // the excluded file itself stays where it is, untouched
+                        want.insert("src/vendor/old.lua".to_owned(), broken.to_string());
+                        if !errors.is_empty() {
+                            Some(format!("errors although the only faulty file is excluded: {:?}", errors))
+                        } else if got != want {
+                            let diff: Vec<&String> = want.keys().chain(got.keys()).filter(|k| got.get(*k) != want.get(*k)).collect();
+                            Some(format!("files differ from the run without the excluded file: {:?}", diff))
+                        } else {
+                            None
+                        }
+                    }
+                    (Err(e), _) | (_, Err(e)) => Some(e),
+                };
+                if let Some(problem) = problem {
+                    violations.push(Violation {
+                        finding: None,
+                        summary: format!("{}\n--- src/vendor/old.lua ({}) excluded by `{}`; config {} fail_fast={} in_place={}", problem, what, filters, config, fail_fast, in_place),
+                        replay: json!({"kind": "excluded file", "config": config, "content": broken, "fail_fast": fail_fast, "in_place": in_place}),
+                    });
+                }
+            }
+        }
+    }
+    // `./` in front of a pattern
+    for (plain, dotted) in [("src/**", "./src/**"), ("src/*.lua", "./src/*.lua"), ("**/b.lua", "./**/b.lua"), ("src/lib/b.lua", "./src/lib/b.lua"), ("src/lib/b.lua", "src/./lib/b.lua")] {
+        for key in ["apply_to_files", "skip_files"] {
+            for on_rule in [false, true] {
+                n += 1;
+                let config = |pattern: &str| {
+                    if on_rule {
+                        format!("{{rules: [{{rule: 'remove_comments', {}: '{}'}}, 'remove_empty_do']}}", key, pattern)
+                    } else {
+                        format!("{{rules: ['remove_comments', 'remove_empty_do'], {}: ['{}']}}", key, pattern)
+                    }
+                };
+                let run = |config: &str| dl::process_memory(healthy, config, "src", Some("out")).map(|(r, e)| (healthy.iter().map(|(p, _)| r.get(p.replacen("src/", "out/", 1)).ok()).collect::<Vec<_>>(), e));
+                let (a, b) = (run(&config(plain)), run(&config(dotted)));
+                if a != b {
+                    violations.push(Violation {
+                        finding: None,
+                        summary: format!("`{}: {}` gives {:?} but the same pattern written `{}` gives {:?} (rule filter: {})", key, plain, a, dotted, b, on_rule),
+                        replay: json!({"kind": "dotted pattern", "key": key, "plain": plain, "dotted": dotted, "on_rule": on_rule}),
+                    });
+                }
+            }
+        }
+    }
+    (n, violations)
+}
+
 pub fn run(tier: Tier) -> Report {
     let mut report = Report::new("C20", "exploration", tier);
     report.rule = "trees = all 31 non-empty subsets of {src/a.lua, src/b.luau, src/lib/a.lua, src/lib/x/c.lua, src/lib/src/a.lua}; apply and skip lists each from {none} + the 16 patterns \
@@ -230,6 +332,11 @@ pub fn run(tier: Tier) -> Report {
             report.violations.push(v);
         }
     }
+    let (n, v) = excluded_file_cases();
+    report.evaluations += n;
+    report.distinct_nontrivial += n;
+    report.violations.extend(v);
+    report.set("excluded_file_and_dotted_pattern_cases", n);
     report.set("cases", cases.len() as u64);
     report.set("patterns", json!(PATTERNS));
     report.sample(json!({"files": ["src/a.lua", "src/lib/a.lua"], "apply": ["**/a.lua"], "skip": ["src/*.lua"], "placement": "rule 2"}));
